@@ -380,11 +380,13 @@ where
     A: RingBuf<Item = T> + Send,
 {
 }
-// The channel is thread-safe as long as a thread-safe mutex is used
+// The channel is thread-safe as long as a thread-safe mutex is used. The
+// buffer is accessed (under the lock) from every thread which uses the
+// channel, and must therefore be Send.
 unsafe impl<MutexType: RawMutex + Sync, T: Send, A> Sync
     for GenericChannel<MutexType, T, A>
 where
-    A: RingBuf<Item = T>,
+    A: RingBuf<Item = T> + Send,
 {
 }
 
